@@ -18,6 +18,9 @@ prop(
         dict(run="^TestPropSliceFaults$",
              quick=dict(checks=320, shards=8, timeout=900, shrinktime='10s'),
              thorough=dict(checks=16000, shards=16, timeout=3600)),
+        dict(run="^TestPropSlowHealthy$",
+             quick=dict(checks=48, shards=16, timeout=900, shrinktime='10s'),
+             thorough=dict(checks=800, shards=16, timeout=3600)),
         dict(run="^TestPropChecks$",
              quick=dict(checks=440, shards=8, timeout=900),
              thorough=dict(checks=48000, shards=16, timeout=5400)),
@@ -37,7 +40,10 @@ prop(
          "exists. Non-trivial (sequences): some upstream recovered between phases and an answer was obtained after that. slice faults: a 2-6 slice range query through [upstream 0 "
          "with a per-slice fault table (503 / connection reset on some slices, the others answered; steps 2s-60s so that slice responses are large), healthy "
          "upstream 1]: if a requested slice of upstream 0 hit a fault, upstream 1 must be contacted and answer; otherwise upstream 0 answers. "
-         "Fault modes are drawn by status CLASS: 5xx from {500,502,503,504,507,509,520-527,530,598,599} x body {empty, html, text, truncated JSON, "
+         "slow but healthy: upstream 0 answers every slice correctly after 30-45% of the client's "
+         "timeout (300-500 ms), with 1-2 workers and enough slices that the whole query takes longer than timeout + 1 s; upstream 1 is healthy and instant: "
+         "upstream 0 must answer and upstream 1 must not be contacted (judged only if the fake's own measured service times were all <= 60% of the timeout, "
+         "else inconclusive). Fault modes are drawn by status CLASS: 5xx from {500,502,503,504,507,509,520-527,530,598,599} x body {empty, html, text, truncated JSON, "
          "JSON envelope with errorType server_error/internal/unavailable/not_found, JSON envelope without errorType}, 4xx from {400,401,403,404,408,413,"
          "422,429,499} x body kinds. part 2: 11 check "
          "constructors taking a Prometheus server (10 online checks + rule/duplicate) x generated alerting/recording rules (18 expressions covering "
